@@ -317,7 +317,11 @@ func (b *batch) Reset() {
 
 // Replay replays the batch contents.
 func (b *batch) Replay(w kvdb.Writer) error {
-	return b.b.Replay(&replayer{writer: w})
+	r := &replayer{writer: w}
+	if err := b.b.Replay(r); err != nil {
+		return err
+	}
+	return r.failure
 }
 
 // replayer is a small wrapper to implement the correct replay methods.
